@@ -179,11 +179,49 @@ def pointer_type_changed_after_definition(ctx):
                     ctx.event("pointer_type_change_checked")
 
 
+def long_arrays(ctx, rng, reps):
+    """Arrays of hundreds to thousands of entries (around the block sizes 256, 512, 1024, 2048, 4096; exact multiples
+    included) of every packed / byte-sliced element type, with a fixed and a data-supplied count, in two dimensions, and
+    a member behind them: parsed from random bytes and dumped again through the general judge."""
+    from ..gen import F, L_expr, L_fixed, N_array, N_char, N_float, N_int
+
+    elems = [lambda: N_int("uint8"), lambda: N_int("int8"), lambda: N_int("uint16"), lambda: N_int("int32"), lambda: N_int("uint64"),
+             lambda: N_int("int24"), lambda: N_float("float"), lambda: N_int("uint128"), lambda: N_char()]
+    counts = [255, 256, 257, 511, 512, 513, 1023, 1024, 1025, 1536, 2048, 4096]
+    for _ in range(reps):
+        for mk in (elems if ctx.thorough else rng.sample(elems, 4)):
+            n = rng.choice(counts)
+            form = rng.choice(["fixed", "counted", "rows"])
+            if form == "fixed":
+                fields = [F("h", N_int("uint8")), F("v", N_array(mk(), L_fixed(n))), F("t", N_int("uint16"))]
+            elif form == "counted":
+                fields = [F("n", N_int("uint16"), len_src=True), F("v", N_array(mk(), L_expr("n"))), F("t", N_int("uint16"))]
+            else:
+                fields = [F("h", N_int("uint8")), F("v", N_array(N_array(mk(), L_fixed(n // 2)), L_fixed(2))), F("t", N_int("uint16"))]
+            case = gen.simple_case(fields)
+            case["named"] = {}
+            ctx.cell(f"long-array:{form}")
+            for endian in "<>":
+                for compiled in (True, False):
+                    cfgd = {"endian": endian, "align": False, "compiled": compiled, "ptr": "uint64"}
+                    cs, err = engine.load_cfg(ctx, case, cfgd)
+                    if cs is None:
+                        ctx.violation("load", f"load-fails:{type(err).__name__}", case_detail(case, cfg=cfgd, error=repr(err)))
+                        continue
+                    cfg = engine.mcfg(case, endian, False, "uint64")
+                    body = bytes(rng.randrange(1, 256) if fields[1]["t"]["elem"].get("k") != "float" else rng.choice((0x3F, 0x40, 0x10, 0x01))
+                                 for _ in range(n * 16 + 8))
+                    inp = (n.to_bytes(2, "little" if endian == "<" else "big") if form == "counted" else b"\x07") + body
+                    judge(ctx, case, cfgd, cfg, cs.T, inp, "long-array")
+
+
 def run(ctx):
     if ctx.shard == 0:
         witnesses(ctx)
     if ctx.shard == 2:
         pointer_type_changed_after_definition(ctx)
+    if ctx.shard % 4 == 3:
+        long_arrays(ctx, ctx.rng("long-arrays"), 1 if not ctx.thorough else 4)
     if ctx.shard % 4 == 1:
         # storage units of bit-fields placed at run time (behind a variable-size member), exactly filled units followed by
         # a unit of the same type, storage types whose size is not their alignment
